@@ -410,7 +410,7 @@ class Runner:
             self.R.check(K_APPDATA, True, "")
         return True, r
 
-    def run(self, S, tier):
+    def run(self, S, tier, pairs=False):
         R = self.R
         calls = S.calls
         k = len(calls)
@@ -449,11 +449,11 @@ class Runner:
         self.pickled_vs_refs(S, est, d, snaps, refs)
         seq = euler_sequence(k, (self.seed + len(S.name)) % k if S.fresh_refs else k - 1)
         rng = random.Random(self.seed * 31 + len(S.name))
-        seq = seq + [rng.randrange(k) for _ in range(k if tier == "quick" else 4 * k)]
+        seq = seq + [rng.randrange(k) for _ in range(k if tier == "quick" else 2 * k)]
         self.sequence(S, est, d, snaps, refs, seq)
         self.pickled_now(S, est, d, snaps, "after the call sequence")
         # ---------------------------------------------------------------- thorough: every ordered pair on fresh fits
-        if tier == "thorough" and S.fresh_refs and k > 1:
+        if pairs and S.fresh_refs and k > 1:
             for i in range(k):
                 for j in range(k):
                     if i == j:
@@ -640,9 +640,9 @@ def forecaster_subjects(tier, seed):
     # training length, index kind, first label (not 0: positions and labels differ)
     layouts = [(12, "range", 3), (13, "period", 0), (12, "range", 0)]
     if thorough:
-        layouts += [(15, "int64", 7), (14, "datetime", 2), (9, "range", 5)]
-    # (a period / datetime index only with the window forecasters: the other ones raise TypeError on period arithmetic
-    # under the installed pandas, with or without the shim)
+        layouts += [(15, "int64", 7), (9, "range", 5)]
+    # (a period index only with the window forecasters: the other ones raise TypeError on period arithmetic under the
+    # installed pandas, with or without the shim; a datetime index: "No `freq` information available")
     plain_lays = [(12, "range", 3), (13, "int64", 0)] + ([(15, "int64", 7), (9, "range", 5)] if thorough else [])
     lay16 = [(16, "range", 3), (17, "int64", 0)] + ([(21, "int64", 4)] if thorough else [])
     ALL = ["out", "gap", "ins_full", "ins_short", "mixed", "list"]
@@ -651,10 +651,9 @@ def forecaster_subjects(tier, seed):
     cnt = [0]
 
     def lays_of(pool, k=1):
-        """thorough: every layout; quick: k of them, rotating with the seed"""
-        if thorough:
-            return pool
+        """quick: k of the layouts, thorough: 3 * k (all when there are no more), rotating with the seed"""
         cnt[0] += 1
+        k = min(len(pool), 3 * k if thorough else k)
         return [pool[(cnt[0] + seed + j) % len(pool)] for j in range(k)]
 
     # ---- NaiveForecaster: every strategy x window x seasonal periodicity (window not a multiple of sp included)
@@ -1252,7 +1251,7 @@ BOUND = (
     "neighbours (+ a seeded random walk; thorough: also every ordered pair on its own fresh fit), bit-exact snapshots "
     "of all caller objects around every fit and call, pickle round trips (right after fit and after the sequence), "
     "refit after other data + set_params, n_jobs in {None,1,2,4} under joblib's threading backend, global RNGs "
-    "re-seeded before every fit. Forecasters (series of 9..21 points; RangeIndex from 0/3/5, int64, period, datetime; "
+    "re-seeded before every fit. Forecasters (series of 9..21 points; RangeIndex from 0/3/5, int64, period; "
     "fit / fit+update(update_params False, True); horizons [1,2,3], gapped [2,5], list, all in-sample, [-2,-1,0], "
     "mixed [-3..2], prediction intervals): NaiveForecaster last/mean/drift x window_length None/4/5 x sp 1/3/4, "
     "PolynomialTrend, ExponentialSmoothing, Theta, AutoETS (auto on: n_jobs), Ensemble (n_jobs), TransformedTarget "
@@ -1290,9 +1289,11 @@ def _run_all(R, tier, seed, name_filter=None, limit=None, protocol_checks=True):
                 subs = [S for S in subs if name_filter(S.name)]
             if limit is not None:
                 subs = subs[:limit]
-            for S in subs:
+            for idx, S in enumerate(subs):
                 try:
-                    run.run(S, tier)
+                    # thorough: a rotating third of the configurations also gets every ordered pair of calls
+                    # (i, j, i) on its own freshly fitted estimator
+                    run.run(S, tier, pairs=(tier == "thorough" and (idx + seed) % 3 == 0))
                 except Exception as e:        # the protocol itself must not stop the run
                     R.check(K_RAISE, False, f"{S.name}: protocol stopped by {_err(e)}")
         if protocol_checks:
